@@ -115,7 +115,13 @@ class KeyFile:
         except OSError:
             self.__key = self.__generate_key()
         else:
-            self._validate_key()
+            try:
+                self._validate_key()
+            except EncryptionError:
+                # do not keep the contents of an invalid key file: a later __enter__ must
+                # validate (and fail) again instead of silently using the invalid key
+                self.__key = None
+                raise
 
     def __generate_key(self) -> bytes:
         """
